@@ -11,10 +11,10 @@ Local Open Scope N_scope.
 Record lrange : Type := mkRange {
   g_id : N; g_pre : N; g_start : N; g_count : N; g_split : N; g_close : bool }.
 
-(** get_log_range_end_index: u64::MAX for the open range (None) *)
-Definition g_end (g : lrange) : option N := if g_close g then Some (g_start g + g_count g) else None.
-Definition lt_end (k : N) (g : lrange) : bool :=
-  match g_end g with Some e => k <? e | None => true end.
+(** get_log_range_end_index: u64::MAX for the open range *)
+Definition U64MAX : N := 18446744073709551615.
+Definition g_end (g : lrange) : N := if g_close g then g_start g + g_count g else U64MAX.
+Definition lt_end (k : N) (g : lrange) : bool := k <? g_end g.
 Definition ge_end (k : N) (g : lrange) : bool := negb (lt_end k g).
 
 Record mgr : Type := mkMgr {
@@ -264,7 +264,12 @@ Fixpoint split_loop (m : mgr) (logs : list lrange) (k : N) (i : nat) : mgr * lis
 Definition mgr_split_off (m : mgr) (k : N) : mgr :=
   let '(m1, logs, i) := split_loop m (m_logs m) k 0 in
   let m2 := set_logs m1 logs in
-  if (0 <? i)%nat then save_logs (set_logs m2 (skipn i logs)) else m2.
+  if (0 <? i)%nat then
+    let rest := skipn i logs in
+    (* repaired (lead's fix b4420c3): when every file was removed the next write starts a new log *)
+    let m3 := match rest with [] => set_cur m2 None | _ => m2 end in
+    save_logs (set_logs m3 rest)
+  else m2.
 
 (** save_new_snapshot_pointer *)
 Definition mgr_save_pointer (m : mgr) (ptr : lrec) : mgr :=
